@@ -58,6 +58,7 @@ type shredInterp struct {
 	seen    map[string]bool
 	lastRep types.Object
 	params  map[string]types.Object
+	fd      *ast.FuncDecl
 }
 
 func (in *shredInterp) bad(format string, a ...interface{}) {
@@ -118,6 +119,28 @@ func (in *shredInterp) eval(e ast.Expr, st *shState) sv {
 		default:
 			return sv{pos: b.pos + 1, form: "struct"}
 		}
+	case *ast.CallExpr:
+		// len(slice node): the element count of a repeated node
+		if id, ok := x.Fun.(*ast.Ident); ok && id.Name == "len" && len(x.Args) == 1 && in.obj(id) == types.Universe.Lookup("len") {
+			v := in.eval(x.Args[0], st)
+			if v.form == "slice" {
+				return sv{pos: v.pos, form: "len"}
+			}
+			return sv{form: "bad", why: "len of " + v.form + " " + v.why}
+		}
+	case *ast.IndexExpr:
+		// S[i] where i is the index variable of the loop over S itself
+		v := in.eval(x.X, st)
+		if id, ok := x.Index.(*ast.Ident); ok && v.form == "slice" {
+			if lvl, ok := st.idx[in.obj(id)]; ok && lvl-1 < len(st.loopPos) && st.loopPos[lvl-1] == v.pos {
+				form := "struct"
+				if in.c.steps[v.pos-1].leaf {
+					form = "val"
+				}
+				return sv{pos: v.pos, form: form}
+			}
+		}
+		return sv{form: "bad", why: "index expression that is not the current element of the enclosing loop"}
 	}
 	return sv{form: "bad", why: fmt.Sprintf("expr %T", e)}
 }
@@ -131,30 +154,27 @@ type cond struct {
 }
 
 func (in *shredInterp) cond(e ast.Expr, st *shState) cond {
+	if p, ok := e.(*ast.ParenExpr); ok {
+		return in.cond(p.X, st)
+	}
 	b, ok := e.(*ast.BinaryExpr)
 	if !ok {
 		return cond{kind: "bad", why: "cond form"}
 	}
-	if b.Op == token.EQL {
+	// nil tests of optional nodes
+	if b.Op == token.EQL || b.Op == token.NEQ {
 		if id, ok := b.Y.(*ast.Ident); ok && id.Name == "nil" {
 			v := in.eval(b.X, st)
 			if v.form == "ptr" {
-				return cond{kind: "absent", pos: v.pos}
+				if b.Op == token.EQL {
+					return cond{kind: "absent", pos: v.pos}
+				}
+				return cond{kind: "present", pos: v.pos}
 			}
 			return cond{kind: "bad", why: "nil test of " + v.form + " " + v.why}
 		}
-		if call, ok := b.X.(*ast.CallExpr); ok {
-			if id, ok := call.Fun.(*ast.Ident); ok && id.Name == "len" && len(call.Args) == 1 {
-				if n, ok := in.tv.constInt(b.Y); ok && n == 0 {
-					v := in.eval(call.Args[0], st)
-					if v.form == "slice" {
-						return cond{kind: "absent", pos: v.pos}
-					}
-					return cond{kind: "bad", why: "len test of " + v.form + " " + v.why}
-				}
-			}
-		}
 	}
+	// index tests: i >= 1, i > 0 (i the index variable of an enclosing loop)
 	if b.Op == token.GEQ || b.Op == token.GTR {
 		if id, ok := b.X.(*ast.Ident); ok {
 			if lvl, ok := st.idx[in.obj(id)]; ok {
@@ -164,6 +184,18 @@ func (in *shredInterp) cond(e ast.Expr, st *shState) cond {
 				}
 			}
 		}
+	}
+	// emptiness tests of repeated nodes: len(s) == 0 | != 0 | > 0 | >= 1, len(s) written out or held in a local
+	if v := in.eval(b.X, st); v.form == "len" {
+		if n, ok := in.tv.constInt(b.Y); ok {
+			switch {
+			case b.Op == token.EQL && n == 0, b.Op == token.LSS && n == 1, b.Op == token.LEQ && n == 0:
+				return cond{kind: "absent", pos: v.pos}
+			case b.Op == token.NEQ && n == 0, b.Op == token.GTR && n == 0, b.Op == token.GEQ && n == 1:
+				return cond{kind: "present", pos: v.pos}
+			}
+		}
+		return cond{kind: "bad", why: "unrecognised length test"}
 	}
 	return cond{kind: "bad", why: "unrecognised condition"}
 }
@@ -272,7 +304,12 @@ func (in *shredInterp) exec(list []ast.Stmt, st *shState, k func(*shState)) {
 		in.exec(x.List, st, next)
 	case *ast.IfStmt:
 		if x.Init != nil {
-			in.bad("if with init")
+			// `if n := len(s); n > 0`: a single-assignment local (scoped to the if) holding a length or an access path
+			as, ok := x.Init.(*ast.AssignStmt)
+			if !ok || as.Tok != token.DEFINE || !in.bindLocal(as, st) {
+				in.bad("undecided: if with init")
+				return
+			}
 		}
 		c := in.cond(x.Cond, st)
 		var elseList []ast.Stmt
@@ -280,6 +317,13 @@ func (in *shredInterp) exec(list []ast.Stmt, st *shState, k func(*shState)) {
 			elseList = []ast.Stmt{x.Else}
 		}
 		switch c.kind {
+		case "present":
+			a := st.clone()
+			a.present[c.pos] = 1
+			in.exec(x.Body.List, a, next)
+			b := st.clone()
+			b.present[c.pos] = -1
+			in.exec(elseList, b, next)
 		case "absent":
 			a := st.clone()
 			a.present[c.pos] = -1
@@ -314,15 +358,19 @@ func (in *shredInterp) exec(list []ast.Stmt, st *shState, k func(*shState)) {
 				return
 			}
 			c := in.cond(cl.List[0], cur)
-			if c.kind != "absent" {
+			if c.kind != "absent" && c.kind != "present" {
 				in.bad("undecided: %s", c.why)
 				return
 			}
+			in1, out1 := -1, 1
+			if c.kind == "present" {
+				in1, out1 = 1, -1
+			}
 			a := cur.clone()
-			a.present[c.pos] = -1
+			a.present[c.pos] = in1
 			in.exec(cl.Body, a, next)
 			cur = cur.clone()
-			cur.present[c.pos] = 1
+			cur.present[c.pos] = out1
 		}
 		if cur != nil {
 			next(cur)
@@ -356,6 +404,27 @@ func (in *shredInterp) exec(list []ast.Stmt, st *shState, k func(*shState)) {
 		after := st.clone()
 		after.lastRep = -1
 		next(after)
+	case *ast.ForStmt:
+		// for i := 0; i < len(s) (or a local holding it); i++ { … s[i] … }: the index form of ranging over s
+		pos, idx := in.indexLoop(x, st)
+		if pos == 0 {
+			in.bad("undecided: for statement that is not an index loop over a repeated node")
+			return
+		}
+		for _, first := range []bool{true, false} {
+			b := st.clone()
+			b.present[pos] = 1
+			b.modes = append(b.modes, first)
+			b.loopPos = append(b.loopPos, pos)
+			if !first {
+				b.lastRep = -1
+			}
+			b.idx[idx] = len(b.modes)
+			in.exec(x.Body.List, b, func(s2 *shState) { in.flush(s2) })
+		}
+		after := st.clone()
+		after.lastRep = -1
+		next(after)
 	case *ast.ReturnStmt:
 		in.flush(st)
 	default:
@@ -371,6 +440,12 @@ func (in *shredInterp) assign(x *ast.AssignStmt, st *shState) {
 	lhs, ok := x.Lhs[0].(*ast.Ident)
 	if !ok {
 		in.bad("undecided: assign lhs")
+		return
+	}
+	if x.Tok == token.DEFINE && in.tv.info.Defs[lhs] != nil {
+		if !in.bindLocal(x, st) {
+			in.bad("undecided: local %s is not an access path or a length", lhs.Name)
+		}
 		return
 	}
 	lo := in.obj(lhs)
@@ -441,7 +516,7 @@ func (in *shredInterp) assign(x *ast.AssignStmt, st *shState) {
 }
 
 func (tv *tvChecker) checkShred(c *column, fd *ast.FuncDecl) ([]string, int) {
-	in := &shredInterp{tv: tv, c: c, seen: map[string]bool{}, params: map[string]types.Object{}}
+	in := &shredInterp{tv: tv, c: c, seen: map[string]bool{}, params: map[string]types.Object{}, fd: fd}
 	st := &shState{present: map[int]int{}, lastRep: -1, bind: map[types.Object]sv{}, idx: map[types.Object]int{}}
 	// parameters by position: the record, then (for columns with levels) values, definition levels, repetition levels
 	var plist []types.Object
@@ -524,4 +599,111 @@ func (tv *tvChecker) checkShred(c *column, fd *ast.FuncDecl) ([]string, int) {
 
 func (in *shredInterp) execTop(list []ast.Stmt, st *shState) {
 	in.exec(list, st, func(s *shState) { in.flush(s) })
+}
+
+// bindLocal: `v := <access path | len(path) | path[i]>` introduces a read-only name for that value.
+func (in *shredInterp) bindLocal(as *ast.AssignStmt, st *shState) bool {
+	if len(as.Lhs) != 1 || len(as.Rhs) != 1 {
+		return false
+	}
+	id, ok := as.Lhs[0].(*ast.Ident)
+	if !ok || in.tv.info.Defs[id] == nil {
+		return false
+	}
+	v := in.eval(as.Rhs[0], st)
+	if v.form == "bad" {
+		return false
+	}
+	if !in.singleAssignment(in.tv.info.Defs[id]) {
+		return false
+	}
+	st.bind[in.tv.info.Defs[id]] = v
+	return true
+}
+
+// singleAssignment: the object is never assigned again (no `=`/op-assign/inc-dec with it on the left, no address taken).
+func (in *shredInterp) singleAssignment(o types.Object) bool {
+	ok := true
+	ast.Inspect(in.fd, func(n ast.Node) bool {
+		switch x := n.(type) {
+		case *ast.AssignStmt:
+			if x.Tok != token.DEFINE {
+				for _, l := range x.Lhs {
+					if id, isId := l.(*ast.Ident); isId && in.obj(id) == o {
+						ok = false
+					}
+				}
+			}
+		case *ast.IncDecStmt:
+			if id, isId := x.X.(*ast.Ident); isId && in.obj(id) == o {
+				ok = false
+			}
+		case *ast.UnaryExpr:
+			if id, isId := x.X.(*ast.Ident); isId && x.Op == token.AND && in.obj(id) == o {
+				ok = false
+			}
+		}
+		return true
+	})
+	return ok
+}
+
+// indexLoop recognises `for i := 0; i < N; i++` with N = len(s) or a local bound to it, i modified only by the post
+// statement; returns the position of s and the index variable.
+func (in *shredInterp) indexLoop(x *ast.ForStmt, st *shState) (int, types.Object) {
+	init, ok := x.Init.(*ast.AssignStmt)
+	if !ok || init.Tok != token.DEFINE || len(init.Lhs) != 1 || len(init.Rhs) != 1 {
+		return 0, nil
+	}
+	id, ok := init.Lhs[0].(*ast.Ident)
+	if !ok {
+		return 0, nil
+	}
+	iv := in.tv.info.Defs[id]
+	if n, ok := in.tv.constInt(init.Rhs[0]); !ok || n != 0 || iv == nil {
+		return 0, nil
+	}
+	post, ok := x.Post.(*ast.IncDecStmt)
+	if !ok || post.Tok != token.INC {
+		return 0, nil
+	}
+	if pid, ok := post.X.(*ast.Ident); !ok || in.obj(pid) != iv {
+		return 0, nil
+	}
+	cnd, ok := x.Cond.(*ast.BinaryExpr)
+	if !ok || cnd.Op != token.LSS {
+		return 0, nil
+	}
+	if cid, ok := cnd.X.(*ast.Ident); !ok || in.obj(cid) != iv {
+		return 0, nil
+	}
+	bound := in.eval(cnd.Y, st)
+	if bound.form != "len" {
+		return 0, nil
+	}
+	// the index variable is not written in the body
+	clean := true
+	ast.Inspect(x.Body, func(n ast.Node) bool {
+		switch y := n.(type) {
+		case *ast.AssignStmt:
+			for _, l := range y.Lhs {
+				if lid, isId := l.(*ast.Ident); isId && in.obj(lid) == iv {
+					clean = false
+				}
+			}
+		case *ast.IncDecStmt:
+			if lid, isId := y.X.(*ast.Ident); isId && in.obj(lid) == iv {
+				clean = false
+			}
+		case *ast.UnaryExpr:
+			if lid, isId := y.X.(*ast.Ident); isId && y.Op == token.AND && in.obj(lid) == iv {
+				clean = false
+			}
+		}
+		return true
+	})
+	if !clean {
+		return 0, nil
+	}
+	return bound.pos, iv
 }
